@@ -97,8 +97,4 @@ def run(tier):
 
 
 def replay(path):
-    j = json.load(open(path))
-    lines = j['replay']['preamble_lines']
-    print('\n'.join(lines) + '\nprofile p @{exec_path} {\n}')
-    print('parser:', parser_verdict(lines, C.scratch()))
-    return 0
+    return C.replay_by_rerun(PROP, path)
